@@ -774,6 +774,12 @@ class Generator(TreeListener):
 
         # Case 2: s is a symbol, e.g. MX(x)
         elif s.is_symbolic():
+            ast_symbol = self.current_class.symbols.get(s.name())
+            if ast_symbol is not None and (
+                "parameter" in ast_symbol.prefixes or "constant" in ast_symbol.prefixes
+            ):
+                # Parameters and constants do not vary in time
+                return ca.DM.zeros(s.size())
             if s.name() not in self.derivative:
                 if len(self.for_loops) > 0 and s in self.for_loops[-1].indexed_symbols:
                     # Create a new indexed symbol, referencing to the for loop index inside the vector derivative symbol.
